@@ -17,10 +17,31 @@ MeanOK(e, k) ==                      \* k = 1..m-1
        THEN Abs(SumF4(e.out, lo, hi - 1) - n * target) <= 2 * n + 2
        ELSE Abs(F4v(e.out[lo]) + F4v(e.out[hi]) + 2 * SumF4(e.out, lo + 1, hi - 1) - 2 * n * target) <= 4 * n + 4
 
+(* Series with a wide dynamic range (large values before small ones): the absolute projection cannot tell a wrong small
+   interval from rounding, so for such cases the harness additionally records every interval's samples divided by that
+   interval's own original average (e.norm[k], values near 1; rectangle target rule, non-zero averages).  Their sum must be n.
+   Summed limb-wise to stay inside 32 bits: value = hi * 1e-4 + lo * 1e-9. *)
+RECURSIVE SumHi(_, _)
+SumHi(s, i) == IF i > Len(s) THEN 0 ELSE s[i][1] * s[i][2] + SumHi(s, i + 1)
+RECURSIVE SumLo(_, _)
+SumLo(s, i) == IF i > Len(s) THEN 0 ELSE s[i][1] * s[i][3] + SumLo(s, i + 1)
+\* An interval next to the large ones contains transition samples that are huge relative to its own average: its rounding
+\* error is relative to those, so it is judged only when every normalised sample stays below 8 in magnitude.
+Moderate(blk) == \A i \in 1..Len(blk) : IsFinite(blk[i]) /\ blk[i][2] < 80000
+NormOK(blk, n) ==
+    /\ Len(blk) = n
+    /\ \A i \in 1..Len(blk) : IsReal(blk[i])
+    /\ Moderate(blk) =>
+          LET dh == SumHi(blk, 1) - n * 10000
+          IN /\ Abs(dh) <= n + 20                                           \* (every hi limb is truncated: up to n units below) ...
+             /\ Abs(dh * 100000 + SumLo(blk, 1)) <= 16 * n + 40             \* ... and by less than (16n + 40) * 1e-9
+RelMeansOK(e) == "norm" \notin DOMAIN e \/ \A k \in 1..Len(e.norm) : NormOK(e.norm[k], e.n)
+
 V_pipeline(e) ==
     IF e.outcome # "ok" THEN {"C02.outcome"}
     ELSE IF Len(e.out) # (e.m - 1) * e.n + 1 \/ ~AllFinite(e.out) \/ e.kind # "ndarray1f" THEN {"C02.shape"}
     ELSE Fail(\E k \in 1..(e.m - 1) : ~MeanOK(e, k), "C02.interval_mean") \cup
+         Fail(~RelMeansOK(e), "C02.interval_mean_relative") \cup
          Fail(e.nthbits # e.refxbits, "C02.nth_abscissa") \cup
          (IF e.trule # "rectangle" THEN {}
           ELSE Fail(Len(e.avgxbits) < e.m - 1 \/ \E k \in 1..(e.m - 1) : e.avgxbits[k] # e.refxbits[k], "C02.average_abscissae") \cup
